@@ -61,6 +61,11 @@ CHECKS = {
    "The validator is a TLA+ predicate that shares nothing with the front-ends: it recomputes field widths and the word size from R/N/M/L/O and the opcode list with the format table that C03 binds to the real assembler, so an under-sized ROM, a duplicated or unsorted opcode, a mis-sized word or a dropped port shows on the first machine that has it; the sources come from bounded catalogues that sweep the boundaries (code+data across powers of two, every subset of shared opcodes, every port arrangement).",
    "Machines of 1-2 processors from BasmSem, up to 26 fragment instances, 155 shapes, 36 bondgo programs, 126 networks and 68 circuits (quick: a quarter of the networks/circuits); operand fields other than port indexes are as wide as their range and are not re-checked; opcodes outside BMIsa's table get the generic checks only; RAM programs of hybrid processors are not decoded. A source that cannot fit must be rejected (4 kinds of over-wide literal x 2 register sizes). Trusted: TLC, the projection wfRecord/readTopo of the emitted object.",
    "DESIGN.md §4 C16", "bmverif"),
+ "C07": ("model_checking",
+   "TLA+ design model BuildFn (a pass that walks a collection in arbitrary order is a function of its input iff it is ordered or its contributions commute; TLC checks the four combinations) and trace spec BuildFnTrace (every run of a real tool is an event [tool, input, env, digest]; a run whose digest differs from an earlier run of the same tool on the same input is rejected); the real basm, bondgo, neuralbond (both operating modes), bmqsim and Verilog generation are run 8-40 times per input, every run in a fresh process with GOMAXPROCS in {1,2,4,16}, on inputs drawn from the specifications' catalogues (BasmSem, FragGraph, BasmShapes, GoSubset, FrontendShapes) and hand-written sources with fragment calls and dynamically created opcodes",
+   "Go randomises map iteration per walk and per process, so a nondeterministic artefact shows as two different digests among repeated fresh runs of one input; the inputs are chosen to have several sections, several processors, dynamic opcodes first met in different orders and goroutines with their own external ports, which is where the order of a walk can leak into opcode numbering, ROM contents, port numbering or line order.",
+   "A difference that shows less often than about once in 10 runs (quick) or 40 runs (thorough) per input can be missed: 32-120 runs are spent on the inputs whose failure modes are order-of-visit dependent. Verilog is rendered by the string-returning generators in a child process (the bondmachine command's test-bench path needs a simulation box). Artefacts compared: machine JSON, assembly listings, .basm text, the Verilog file set; error messages are compared without the logger's timestamp. Trusted: TLC, SHA-1.",
+   "DESIGN.md §4 C07", "bmverif"),
  "C12": ("model_checking",
    "TLA+ spec BondgoSync (visitor / Var_assigner / Usage_Monitor over unbuffered channels) model-checked by TLC for deadlock freedom, termination under fairness, NotifiedBeforeExit and SameRequirements; the real compiler (verif build) run under schedules forced by delays at every hook point, hook logs and process outcomes trace-validated by TLC; TLA+ reference semantics GoSubset simulated by TLC to build programs with expected output streams, compiled by the real bondgo, simulated by the real VM and compared",
    "The protocol model explores every interleaving of the compiler's three goroutines and singles out the schedule that deadlocks a given ordering of the assigner's answer/notify pair; the real compiler is then driven into exactly those schedules (and the others reachable by delaying each synchronisation point), must terminate in all of them and must emit identical artefacts. Independently, programs drawn from the reference semantics are compiled and executed and their output streams must equal the specification's.",
